@@ -457,6 +457,7 @@ impl Property for C03 {
             "network_level_feedback",
             "network_level_stateful",
             "network_level_step_via_learn",
+            "slot_ge_2pow18_elements",
         ]
     }
 
@@ -471,7 +472,10 @@ impl Property for C03 {
             Tier::Quick => 0.04,
             Tier::Thorough => 0.04,
         });
-        let k = if long { rng.range(1, 2) } else { rng.range(1, 6) };
+        // now and then one parameter with 2^18 and more elements (a 512 x 512 matrix, the same
+        // numbers as a vector and as a kernel stack): size-keyed fast paths
+        let huge = scale_case && !long && rng.chance(0.15);
+        let k = if huge { 1 } else if long { rng.range(1, 2) } else { rng.range(1, 6) };
         let mut slots: Vec<Slot> = Vec::new();
         while slots.len() < k {
             let layer = rng.below(3);
@@ -480,7 +484,9 @@ impl Property for C03 {
             if slots.iter().any(|s| s.layer == layer && s.filter == filter && s.bias == bias) {
                 continue;
             }
-            let dims = if scale_case { (rng.range(2, 6), rng.range(2, 6), rng.range(3, 9)) } else { (rng.range(1, 3), rng.range(1, 2), rng.range(1, 3)) };
+            let dims = if huge {
+                (512, rng.pick(&[8usize, 16]), rng.pick(&[64usize, 65]))
+            } else if scale_case { (rng.range(2, 6), rng.range(2, 6), rng.range(3, 9)) } else { (rng.range(1, 3), rng.range(1, 2), rng.range(1, 3)) };
             let n = dims.0 * dims.1 * dims.2;
             let pattern = if long {
                 rng.pick(&[Pattern::Constant, Pattern::Constant, Pattern::SignFlip, Pattern::Random, Pattern::Sparse])
@@ -501,7 +507,7 @@ impl Property for C03 {
                     1 => StepSeq::Constant(rng.range(1, 3) as i32),
                     _ => StepSeq::Counting,
                 },
-                updates: if long { rng.range(1000, 5000) } else { rng.range(1, 50) },
+                updates: if huge { rng.range(1, 4) } else if long { rng.range(1000, 5000) } else { rng.range(1, 50) },
             });
         }
         // interleaving: repeatedly pick a slot that still has updates left
@@ -535,6 +541,7 @@ impl Property for C03 {
         stats.probe("rmsprop_momentum", matches!(opt, OptCfg::RMSprop { momentum: Some(_), .. }));
         stats.probe("default_substitution", substituted(opt) != *opt);
         stats.probe("slots_ge_3", case.slots.len() >= 3);
+        stats.probe("slot_ge_2pow18_elements", case.slots.iter().any(|s| s.len() >= 1 << 18));
         stats.probe("interleaved", case.order.windows(2).filter(|w| w[0] != w[1]).count() >= 2);
         stats.probe("long_history", case.slots.iter().any(|s| s.updates >= 1000));
         stats.probe("long_constant_gradient", case.slots.iter().any(|s| s.updates >= 1000 && s.pattern == Pattern::Constant));
